@@ -450,14 +450,28 @@ def _translator_validation(chk, cname, pairs, replay_for):
         return
     finally:
         _real._CUR[0] = prev_ctx
-    fmap = {lab: impl for lab, impl, _ in fpairs}
+    # labels may repeat (e.g. the same class for charm, bottom, top, or for several orders); their relative order need not be the
+    # same in both runs, so only labels that are unique in both runs are compared
+    fmap, seen = {}, {}
+    for lab, impl, _ in fpairs:
+        k = seen.get(lab, 0)
+        seen[lab] = k + 1
+        fmap[(lab, k)] = impl
+    fcount = dict(seen)
+    pcount = {}
+    for lab, _, _ in pairs:
+        pcount[lab] = pcount.get(lab, 0) + 1
     n = bad = 0
+    seen = {}
     for lab, impl, _ in pairs:
-        if lab not in fmap or isinstance(impl, bool) or isinstance(fmap[lab], bool):
+        k = seen.get(lab, 0)
+        seen[lab] = k + 1
+        fv = fmap.get((lab, k))
+        if fv is None or pcount[lab] != 1 or fcount.get(lab) != 1 or isinstance(impl, bool) or isinstance(fv, bool):
             continue
         try:
             w = float(S.lift(impl).w)
-            f = float(fmap[lab])
+            f = float(fv)
         except Exception:  # noqa
             continue
         n += 1
